@@ -140,12 +140,19 @@ def fresh_call(op, ctxs):
 
 
 def run_history(ops, ctxs):
-    """the whole history on ONE object (ops flagged `other` on a second one living beside it)"""
+    """the whole history on ONE object (ops flagged `other` on a second one living beside it, ops flagged `fresh`
+    on an object created for that call: same process, no instance history)"""
     from rpft.parsers.common.cellparser import CellParser
 
     cp, cp2 = CellParser(), CellParser()
     objs = [py_ctx(c) for c in ctxs]          # the SAME dict objects for the whole history
-    return [call(cp2 if op.get("other") else cp, op, objs) for op in ops]
+    out = []
+    for op in ops:
+        if op.get("fresh"):
+            out.append(call(CellParser(), op, [py_ctx(c) for c in ctxs]))
+        else:
+            out.append(call(cp2 if op.get("other") else cp, op, objs))
+    return out
 
 
 # isolation server entry points (harness/isolate.py)
@@ -153,8 +160,20 @@ def isolated_prepare():
     import rpft.parsers.common.cellparser  # noqa: F401
 
 
+def _verdict(op, res, ctxs):
+    pr = property_at(op, res, ctxs)
+    return dict(out=outcome(res), prop=list(pr) if pr else None)
+
+
 def isolated_apply(item):
-    return outcome(fresh_call(item["op"], item["ctxs"]))
+    """one call on a new object in a process that has done nothing else"""
+    return _verdict(item["op"], fresh_call(item["op"], item["ctxs"]), item["ctxs"])
+
+
+def isolated_history(item):
+    """a whole history in ONE process that has done nothing else"""
+    res = run_history(item["ops"], item["ctxs"])
+    return [_verdict(op, r, item["ctxs"]) for op, r in zip(item["ops"], res)]
 
 
 # ------------------------------------------------------------------ the model side
@@ -494,7 +513,7 @@ def judge(sess, iso, m=None, disagree=None, stats=None):
     fails = []
     for i, op in enumerate(ops):
         g, f = outcome(got[i]), outcome(fresh[i])
-        p = pristine[i] if pristine else None
+        p = pristine[i].get("out", ["crash", pristine[i].get("crash")]) if pristine else None
         if g != f:
             fails.append(dict(at=i, key=K_HISTORY,
                               what=f"call {i} {show_op(op, ctxs)} on the long-lived CellParser gives {g}, on a fresh CellParser {f}"))
@@ -530,14 +549,18 @@ def judge(sess, iso, m=None, disagree=None, stats=None):
     return fails
 
 
+def _obj(op):
+    return "CellParser()." if op.get("fresh") else "other." if op.get("other") else ""
+
+
 def show_op(op, ctxs):
     m = op["m"]
     if m in ("parse", "parse_as_string"):
         c = op["ctx"]
         cs = {"default": "", "empty": ", {}", "none": ", None"}.get(c) if isinstance(c, str) else ", " + json.dumps(ctxs[c[1]], ensure_ascii=False)
-        return f"{'other.' if op.get('other') else ''}{m}({op['text']!r}{cs})"
+        return f"{_obj(op)}{m}({op['text']!r}{cs})"
     arg = op.get("s", op.get("value"))
-    return f"{'other.' if op.get('other') else ''}{m}({arg!r}{', ' + repr('|;'[op['sep']]) if m == 'split_by_separator' else ''})"
+    return f"{_obj(op)}{m}({arg!r}{', ' + repr('|;'[op['sep']]) if m == 'split_by_separator' else ''})"
 
 
 def still_fails(sess, at, key, iso):
@@ -548,8 +571,8 @@ def still_fails(sess, at, key, iso):
 
 
 def minimise(sess, at, key, iso):
-    """drop calls before the failing one while the failure stays; drop the context objects no call uses;
-    -> (session, index of the failing call, its description in the small history)"""
+    """IN-PROCESS minimisation (used only when the isolation server is unavailable): drop calls before the failing
+    one while the failure stays; -> (session, index of the failing call, its description in the small history)"""
     ops = [dict(o) for o in sess["ops"][:at + 1]]
     ctxs = sess["ctxs"]
     i = 0
@@ -559,12 +582,7 @@ def minimise(sess, at, key, iso):
             ops = cand
         else:
             i += 1
-    used = sorted({o["ctx"][1] for o in ops if isinstance(o.get("ctx"), list)})
-    renum = {old: new for new, old in enumerate(used)}
-    for o in ops:
-        if isinstance(o.get("ctx"), list):
-            o["ctx"] = ["ref", renum[o["ctx"][1]]]
-    small = dict(ops=ops, ctxs=[ctxs[k] for k in used])
+    small = prune_ctxs(dict(ops=ops, ctxs=ctxs))
     what = None
     for f in judge(small, iso if key == K_PROCESS else None):
         if f["at"] == len(ops) - 1 and f["key"] == key:
@@ -572,10 +590,126 @@ def minimise(sess, at, key, iso):
     return small, len(ops) - 1, what
 
 
+def prune_ctxs(sess):
+    ops = [dict(o) for o in sess["ops"]]
+    used = sorted({o["ctx"][1] for o in ops if isinstance(o.get("ctx"), list)})
+    renum = {old: new for new, old in enumerate(used)}
+    for o in ops:
+        if isinstance(o.get("ctx"), list):
+            o["ctx"] = ["ref", renum[o["ctx"][1]]]
+    return dict(ops=ops, ctxs=[sess["ctxs"][k] for k in used])
+
+
+def concat(sessions):
+    """several histories one after the other in one process (context tables merged)"""
+    ops, ctxs = [], []
+    for sn in sessions:
+        off = len(ctxs)
+        for o in sn["ops"]:
+            o = dict(o)
+            if isinstance(o.get("ctx"), list):
+                o["ctx"] = ["ref", o["ctx"][1] + off]
+            ops.append(o)
+        ctxs += sn["ctxs"]
+    return dict(ops=ops, ctxs=ctxs)
+
+
+class Clean:
+    """judgements that do not depend on what THIS process has done: a history is run in one forked pristine process,
+    each of its calls alone in another (results cached per call)"""
+
+    def __init__(self, iso):
+        self.iso = iso
+        self.cache = {}
+
+    def single(self, op, ctxs):
+        c = op.get("ctx")
+        lean = {k: x for k, x in op.items() if k not in ("other", "fresh", "k")}
+        item = dict(op=dict(lean, ctx=["ref", 0]) if isinstance(c, list) else lean, ctxs=[ctxs[c[1]]] if isinstance(c, list) else [])
+        key = json.dumps(item, sort_keys=True)
+        if key not in self.cache:
+            self.cache[key] = self.iso.ask("c08_sessions", "isolated_apply", [item])[0]
+        return self.cache[key]
+
+    def last_fails(self, sess):
+        """-> (key, what) when the LAST call of the history, run in one pristine process, fails; else None"""
+        hist = self.iso.ask("c08_sessions", "isolated_history", [sess])[0]
+        if not isinstance(hist, list):
+            return None
+        op = sess["ops"][-1]
+        h, one = hist[-1], self.single(op, sess["ctxs"])
+        if "out" not in h or "out" not in one:
+            return None
+        if h["out"] != one["out"]:
+            return (K_HISTORY, f"{show_op(op, sess['ctxs'])} gives {h['out']} after the history, {one['out']} as the only call of a process")
+        if h["prop"] and not one["prop"]:
+            return tuple(h["prop"])
+        return None
+
+    def all_fails(self, sess):
+        hist = self.iso.ask("c08_sessions", "isolated_history", [sess])[0]
+        out = []
+        if not isinstance(hist, list):
+            return [dict(at=0, key="crash", what=str(hist))]
+        for i, (op, h) in enumerate(zip(sess["ops"], hist)):
+            one = self.single(op, sess["ctxs"])
+            if h.get("out") != one.get("out"):
+                out.append(dict(at=i, key=K_HISTORY, what=f"{show_op(op, sess['ctxs'])} gives {h.get('out')} after the history, "
+                                                           f"{one.get('out')} as the only call of a process"))
+            elif h.get("prop") and not one.get("prop"):
+                out.append(dict(at=i, key=h["prop"][0], what=h["prop"][1]))
+        return out
+
+    def reproduce(self, prior, sess, at):
+        """the smallest history (calls of this process, oldest dropped first) after which call `at` of sess fails in a
+        pristine process -> (session, key, what) or None"""
+        head = dict(ops=sess["ops"][:at + 1], ctxs=sess["ctxs"])
+        cand, k = None, 0
+        while True:
+            c = concat(prior[len(prior) - k:] + [head]) if k else head
+            if self.last_fails(c):
+                cand = c
+                break
+            if k >= len(prior):
+                return None
+            k = min(len(prior), max(1, 2 * k))
+        ops, ctxs = cand["ops"], cand["ctxs"]
+        # ddmin over the calls before the last one
+        n = 2
+        pre = ops[:-1]
+        while pre:
+            size = max(1, len(pre) // n)
+            removed = False
+            for start in range(0, len(pre), size):
+                trial = pre[:start] + pre[start + size:]
+                if self.last_fails(dict(ops=trial + [ops[-1]], ctxs=ctxs)):
+                    pre = trial
+                    n = max(n - 1, 2)
+                    removed = True
+                    break
+            if not removed:
+                if size == 1:
+                    break
+                n = min(len(pre), n * 2)
+        small = prune_ctxs(dict(ops=pre + [ops[-1]], ctxs=ctxs))
+        key, what = self.last_fails(small)
+        if key == K_HISTORY:
+            # instance state or state outside the instance?  the same call on an object created after the history
+            probe = dict(ops=[dict(o) for o in small["ops"]], ctxs=small["ctxs"])
+            probe["ops"][-1]["fresh"] = True
+            probe["ops"][-1].pop("other", None)
+            pf = self.last_fails(probe)
+            if pf and pf[0] == K_HISTORY:
+                small, key, what = probe, K_PROCESS, pf[1] + " (the call is made on a NEW CellParser: the state is not in the instance)"
+        return small, key, what
+
+
 # ------------------------------------------------------------------ the stream
 def run_sessions(ctx, nontrivial):
     import isolate
 
+    import time
+    t0 = time.time()
     v, rng, m = ctx.v, ctx.rng, ctx.model
     thorough = ctx.tier == "thorough"
     n_sessions = (3000 if thorough else 220) * ctx.scale
@@ -588,6 +722,9 @@ def run_sessions(ctx, nontrivial):
     except Exception as e:  # the isolation server is an aid: without it (H) compares with in-process fresh objects only
         st["isolation"] = f"unavailable: {type(e).__name__}"
     samples = []
+    clean = Clean(iso) if iso else None
+    attempts = {}
+    prior = []           # the histories this process has already run, oldest first (state outside the instances outlives them)
     try:
         for _ in range(n_sessions):
             sess = gen_session(rng, allow_ast=bool(m))
@@ -643,22 +780,40 @@ def run_sessions(ctx, nontrivial):
                         v.failing_input("string-vs-list" if f["key"] == K_SVL_HISTORY else "expand-then-split", f["what"],
                                         dict(fn="session", ops=[op], ctxs=sess["ctxs"], at=0, key=f["key"]))
                     continue
-                small, at, what = minimise(sess, f["at"], f["key"], iso)
+                if attempts.get(f["key"], 0) >= 3:
+                    continue            # this class was already reproduced and minimised three times in this run
+                attempts[f["key"]] = attempts.get(f["key"], 0) + 1
+                rep = clean.reproduce(prior, sess, f["at"]) if clean else None
+                if rep is not None:
+                    small, key, what = rep
+                    at = len(small["ops"]) - 1
+                elif clean:
+                    # seen in this process, not reproduced by re-running its calls in a pristine one
+                    st["failures_not_reproduced_in_a_clean_process"] = st.get("failures_not_reproduced_in_a_clean_process", 0) + 1
+                    ctx.disagree("history: a failure seen in the harness process does not reproduce in a pristine process",
+                                 dict(history=[show_op(o, sess["ctxs"]) for o in ops[:f["at"] + 1]]), f["key"], f["what"])
+                    continue
+                else:
+                    small, at, what = minimise(sess, f["at"], f["key"], iso)
+                    key = f["key"]
                 hist = "; ".join(show_op(o, small["ctxs"]) for o in small["ops"][:at]) or "<nothing>"
-                v.failing_input(f["key"], f"after the calls [{hist}] on the same CellParser: {what or f['what']}",
-                                dict(fn="session", ops=small["ops"], ctxs=small["ctxs"], at=at, key=f["key"]))
+                v.failing_input(key, f"after the calls [{hist}]: {what or f['what']}",
+                                dict(fn="session", ops=small["ops"], ctxs=small["ctxs"], at=at, key=key))
+            prior.append(sess)
             if len(samples) < 3 and len(ops) >= 4:
                 samples.append([show_op(o, sess["ctxs"]) for o in ops])
     finally:
         if iso:
             st["isolated_calls"] = iso.calls
             iso.close()
+    st["wall_s"] = round(time.time() - t0, 1)
     ctx.stats["histories"] = st
     return samples
 
 
 def replay_session(r):
-    """the replay record of a history failure: the failure is reproduced iff it shows at call `at`"""
+    """the replay record of a history failure: reproduced iff some call of the history, run in one pristine process,
+    differs from the same call as the only call of a process (or fails a statement it satisfies alone)"""
     import isolate
 
     sess = dict(ops=r["ops"], ctxs=r["ctxs"])
@@ -668,7 +823,7 @@ def replay_session(r):
     except Exception:
         pass
     try:
-        fails = judge(sess, iso)
+        fails = Clean(iso).all_fails(sess) if iso else judge(sess, None)
         got = run_history(sess["ops"], sess["ctxs"])
     finally:
         if iso:
